@@ -8,3 +8,17 @@ package bloomsearch
 
 // VerifSetFileNameDraw replaces the candidate-name draw used by CreateFile.
 func (fs *FileSystemDataStore) VerifSetFileNameDraw(draw func() string) { fs.drawFileName = draw }
+
+// VerifFastTokens runs the zero-allocation word splitter and case folder that the engine
+// uses in place of BasicWhitespaceLowerTokenizer (index building and row matching), so that
+// the harness can compare it with the documented tokenizer over every rune.
+func VerifFastTokens(text string) []string {
+	out := []string{}
+	var buf []byte
+	forEachWord(text, func(word string) bool {
+		buf = appendFoldedWord(buf[:0], word)
+		out = append(out, string(buf))
+		return true
+	})
+	return out
+}
